@@ -240,6 +240,10 @@ fn judge(filter: &str, kc: Option<KCfg>, start: u64, seq: &[FEv], fail: &[u64], 
     }
 }
 
+/// distinct command traces are counted exactly up to this many (a vacuity indicator, not a verdict)
+const TRACE_CAP: usize = 4_000_000;
+
+#[allow(dead_code)]
 fn enumerate(alpha: &[FEv], depth: usize) -> Vec<Vec<FEv>> {
     let mut out: Vec<Vec<FEv>> = vec![vec![]];
     for _ in 0..depth {
@@ -292,39 +296,69 @@ pub fn sweep(tier: Tier) -> Sweep {
     for (alpha, depth, cfgs, sts) in plans {
         // all sequences of every length up to depth (demobilize closes each)
         for d in 1..=depth {
-            let seqs = enumerate(alpha, d);
-            let res: Vec<(u64, u64, Vec<Violation>, Vec<Violation>, Vec<u64>)> = seqs
-                .par_iter()
-                .map(|seq| {
-                    let mut p = vec![];
-                    let mut b = vec![];
-                    let mut n = 0;
-                    let mut c = 0;
-                    let mut hashes = vec![];
-                    for &st in sts {
-                        for &kc in cfgs {
-                            let r = run_filter::<KalmanFilter>(kalman_cfg(kc), st, seq, &[]);
-                            n += 1;
-                            c += r.cmds.len() as u64;
-                            hashes.push(hash_cmds(&r));
-                            judge("kalman", Some(kc), st, seq, &[], &r, &mut p, &mut b);
+            // sequences are decoded from their index (digits to base |alphabet|): nothing is stored
+            let n_alpha = alpha.len() as u64;
+            let total = n_alpha.pow(d as u32);
+            type Part = (u64, u64, Vec<Violation>, Vec<Violation>, std::collections::HashSet<u64>);
+            let (n, c, p, b, h): Part = (0..total)
+                .into_par_iter()
+                .fold(
+                    || (0u64, 0u64, Vec::<Violation>::new(), Vec::<Violation>::new(), std::collections::HashSet::<u64>::new()),
+                    |mut acc: Part, idx| {
+                        let mut seq = Vec::with_capacity(d);
+                        let mut x = idx;
+                        for _ in 0..d {
+                            seq.push(alpha[(x % n_alpha) as usize]);
+                            x /= n_alpha;
                         }
-                        for gain in [0.25f64, 1.0] {
-                            let r = run_filter::<BasicFilter>(gain, st, seq, &[]);
-                            n += 1;
-                            c += r.cmds.len() as u64;
-                            hashes.push(hash_cmds(&r));
-                            judge("basic", None, st, seq, &[], &r, &mut p, &mut b);
+                        let seq = &seq;
+                        for &st in sts {
+                            for &kc in cfgs {
+                                let r = run_filter::<KalmanFilter>(kalman_cfg(kc), st, seq, &[]);
+                                acc.0 += 1;
+                                acc.1 += r.cmds.len() as u64;
+                                if acc.4.len() < TRACE_CAP / 16 {
+                                    acc.4.insert(hash_cmds(&r));
+                                }
+                                judge("kalman", Some(kc), st, seq, &[], &r, &mut acc.2, &mut acc.3);
+                            }
+                            for gain in [0.25f64, 1.0] {
+                                let r = run_filter::<BasicFilter>(gain, st, seq, &[]);
+                                acc.0 += 1;
+                                acc.1 += r.cmds.len() as u64;
+                                if acc.4.len() < TRACE_CAP / 16 {
+                                    acc.4.insert(hash_cmds(&r));
+                                }
+                                judge("basic", None, st, seq, &[], &r, &mut acc.2, &mut acc.3);
+                            }
                         }
-                    }
-                    (n, c, dedup(p), dedup(b), hashes)
-                })
-                .collect();
-            for (n, c, p, b, h) in res {
-                s.sequences += n;
-                s.commands += c;
-                s.panics.extend(p);
-                s.bounds.extend(b);
+                        if acc.2.len() + acc.3.len() > 64 {
+                            acc.2 = dedup(std::mem::take(&mut acc.2));
+                            acc.3 = dedup(std::mem::take(&mut acc.3));
+                        }
+                        acc
+                    },
+                )
+                .reduce(
+                    || (0, 0, vec![], vec![], Default::default()),
+                    |mut a: Part, b: Part| {
+                        a.0 += b.0;
+                        a.1 += b.1;
+                        a.2.extend(b.2);
+                        a.3.extend(b.3);
+                        a.2 = dedup(std::mem::take(&mut a.2));
+                        a.3 = dedup(std::mem::take(&mut a.3));
+                        if a.4.len() < TRACE_CAP {
+                            a.4.extend(b.4);
+                        }
+                        a
+                    },
+                );
+            s.sequences += n;
+            s.commands += c;
+            s.panics.extend(p);
+            s.bounds.extend(b);
+            if traces.len() < TRACE_CAP {
                 traces.extend(h);
             }
             s.panics = dedup(std::mem::take(&mut s.panics));
